@@ -1,12 +1,12 @@
 CONSTANTS
   Configs <- TierConfigs
-  Tier = "thorough"
+  Tier = "mid"
   CyclesFromEveryNode = TRUE
   RefDepthChecked = TRUE
   ExitLinked = TRUE
-  StopAfterAnswer = FALSE
+  StopAfterAnswer = TRUE
   ResumeAllEdges = FALSE
   StepCap = 600
-INIT GInit
-NEXT GNext
+SPECIFICATION Spec
 CHECK_DEADLOCK FALSE
+INVARIANT FollowsGraph
